@@ -232,8 +232,12 @@ def run_scenario(spec, tier, open_classes, focus=None, validate_max=12, timeout_
                                             "why": f"outcome sym={outcome!r} real={r_out!r}"})
             return
         if r_failed and not had_violation:
+            # the real code fails an obligation on this concrete input although the model discharged it: the model is not
+            # faithful here (reported), and the failure on the real code is a replayed violation in its own right
             validations["mismatch"].append({"scenario": sc.ident(), "model": model,
-                                            "why": f"obligations fail on real numpy but were discharged: {r_failed[:3]}"})
+                                            "why": f"obligations fail on real numpy but were discharged: {r_failed[:3]}",
+                                            "real_failure": {"spec": spec, "label": r_failed[0], "family": "found by the replay on real numpy",
+                                                             "model": model}})
         for k, v in sym_obs.items():
             if k.startswith("~"):
                 continue
@@ -337,6 +341,7 @@ def run_property(pid, scenarios, tier, seed, *, assumptions, outside, bounds, ex
         results = [_worker(t) for t in tasks]
 
     total = Stats()
+    inconclusive_model_notes = []
     harness_errors = []
     violations = []
     known_hits = {}
@@ -349,7 +354,11 @@ def run_property(pid, scenarios, tier, seed, *, assumptions, outside, bounds, ex
             total.merge(st)
             val_done += r["validations"]["done"]
             for mm in r["validations"]["mismatch"]:
-                harness_errors.append(f"validation mismatch in {mm['scenario']}: {mm['why']} model={mm['model']}")
+                if mm.get("real_failure"):
+                    violations.append(mm["real_failure"])
+                    inconclusive_model_notes.append(f"model gap: {mm['scenario']}: {mm['why']} (reported as a violation: it fails on the real code)")
+                else:
+                    harness_errors.append(f"validation mismatch in {mm['scenario']}: {mm['why']} model={mm['model']}")
             cls = r["spec"]["cls"]
             d = per_class_outcomes.setdefault(cls, {})
             for k, v in st.outcomes.items():
@@ -473,6 +482,8 @@ def run_property(pid, scenarios, tier, seed, *, assumptions, outside, bounds, ex
         print(f"[{pid}] solver unknown on: {sorted(set(total.unknowns))[:6]}")
     for h in inconclusive_notes:
         print(f"[{pid}] INCONCLUSIVE: {h}")
+    for h in sorted(set(inconclusive_model_notes))[:4]:
+        print(f"[{pid}] NOTE: {h[:400]}")
     for h in harness_errors[:10]:
         print(f"[{pid}] HARNESS-ERROR: {h}", file=sys.stderr)
     return exit_code
